@@ -22,11 +22,12 @@ from harness.lib import tracelib as tl
 
 SIG_A = "C06:node-construction-error:only-pipeline_start-unflushed-handle-open"
 SIG_B = "C06:base-exception-abort:no-error-ser-no-pipeline_end"
-SIG_C = "C06:non-json-sweep-metadata:pipeline_start-without-pipeline_spec_canonical"
+SIG_C = "C06:non-json-sweep-metadata:no-schema-valid-pipeline_start-and-no-ser"
 EXPECTED = {  # defect class -> problems that belong to it
     SIG_A: {"no-pipeline_end", "handle-open", "unflushed"},
     SIG_B: {"ser-count", "no-pipeline_end"},
-    SIG_C: {"ser-count", "schema:pipeline_start:required::pipeline_spec_canonical", "exception-changed"},
+    SIG_C: {"ser-count", "schema:pipeline_start:required::pipeline_spec_canonical", "exception-changed",
+            "no-single-pipeline_start", "no-pipeline_end"},   # (the traced call may also raise before pipeline_start)
 }
 
 
